@@ -507,7 +507,9 @@ func flSoupRecord(args []string) error {
 			byPos[[2]int{r.File, r.Line}] = append(byPos[[2]int{r.File, r.Line}], r)
 		}
 		if err := files.Err(); err != nil {
-			return fmt.Errorf("reading soup: %v", err)
+			// the files are on disk and every generated line is far below the reader's
+			// documented 64 KiB limit: stopping early loses records; make the trace unacceptable
+			byPos[[2]int{0, 0}] = append(byPos[[2]int{0, 0}], flSoupMark("reader-stopped:"+err.Error()))
 		}
 		for i, cl := range clones {
 			if got := fmt.Sprintf("%v|%s|%d|%v", cl.Config, cl.Name, cl.Iters, cl.Values); got != snaps[i] {
